@@ -1,12 +1,14 @@
 ---- MODULE RegexTokGen ----
 (***************************************************************************************************)
 (* G phase of C16, part (b): "arbitrary near-miss strings".  Every sequence of at most MaxLen tokens *)
-(* over Tokens (meta characters, fragments of quantifiers / sets / escapes, literals) and every      *)
-(* sequence of exactly MaxLen + 1 tokens over the reduced set CoreTokens, concatenated to a text.    *)
+(* over Tokens (meta characters, fragments of quantifiers / sets / escapes, literals), every longer  *)
+(* sequence of at most CoreLen tokens over CoreTokens and every still longer one of at most TightLen *)
+(* tokens over TightTokens, concatenated to a text; plus two framed families that go deeper into     *)
+(* quantifier bodies (a{...}) and set bodies ([...], [^...]).                                        *)
 (* Each token contributes the code points it denotes to the string alphabet of the case.            *)
 (***************************************************************************************************)
 EXTENDS Regex, Json, IOUtils, TLC, SequencesExt
-CONSTANTS MaxLen, WithLonger, AlphaCap, LenCap, Budget
+CONSTANTS MaxLen, CoreLen, TightLen, QLen, SLen, AlphaCap, LenCap, Budget
 
 Tok(text, chars) == [text |-> text, chars |-> chars]
 Tokens == <<
@@ -42,20 +44,34 @@ Tokens == <<
 \* indices of the tokens used for the longer sequences
 CoreTokens == {1, 4, 6, 7, 8, 9, 10, 12, 13, 14, 15, 16, 17, 18, 19, 20}
 
+TightTokens == {1, 4, 7, 8, 9, 10, 12, 14, 15, 20}
 TokSeqs == UNION {[1..n -> 1..Len(Tokens)] : n \in 0..MaxLen}
-           \cup (IF WithLonger THEN [1..(MaxLen + 1) -> CoreTokens] ELSE {})
+           \cup UNION {[1..n -> CoreTokens] : n \in (MaxLen + 1)..CoreLen}
+           \cup UNION {[1..n -> TightTokens] : n \in (CoreLen + 1)..TightLen}
 RECURSIVE Concat(_, _)
 Concat(ts, n) == IF n > Len(ts) THEN <<>> ELSE Tokens[ts[n]].text \o Concat(ts, n + 1)
-Alphabet(ts) ==
-  LET M == UNION {Tokens[ts[n]].chars : n \in 1..Len(ts)} IN TakeMin(M, AlphaCap - 1) \cup {Neutral}
-CaseOf(ts) ==
-  LET A == Alphabet(ts) IN [toks |-> ts, text |-> Concat(ts, 1), alpha |-> SetToSeq(A), maxlen |-> LengthFor(A, LenCap, Budget)]
 \* the token "[^" spells the same text as "[" followed by "^": keep the sequences that use the former
 CanonicalToks(ts) == ~\E n \in 1..(Len(ts) - 1) : ts[n] = 12 /\ ts[n + 1] = 1
-Cases == {CaseOf(ts) : ts \in {x \in TokSeqs : CanonicalToks(x)}}
+FromTokens == {[text |-> Concat(ts, 1), chars |-> UNION {Tokens[ts[n]].chars : n \in 1..Len(ts)}] :
+                 ts \in {x \in TokSeqs : CanonicalToks(x)}}
+
+\* framed families: a{BODY} with every body of at most QLen quantifier fragments, [BODY] and [^BODY] with every
+\* body of at most SLen set fragments
+QFragments == {<<49>>, <<51>>, <<44>>, <<178>>, <<1635>>, <<45>>, <<48>>, <<125>>}
+SFragments == {<<97>>, <<99>>, <<45>>, <<94>>, <<92, 45>>, <<93>>, <<92, 93>>, <<128512>>, <<92, 92>>}
+RECURSIVE Flatten(_, _)
+Flatten(ss, n) == IF n > Len(ss) THEN <<>> ELSE ss[n] \o Flatten(ss, n + 1)
+Bodies(F, m) == {Flatten(b, 1) : b \in UNION {[1..n -> F] : n \in 0..m}}
+FramedQ == {[text |-> <<97, 123>> \o b \o <<125>>, chars |-> {97}] : b \in Bodies(QFragments, QLen)}
+FramedS == {[text |-> pre \o b \o <<93>>, chars |-> {97, 99, 45, 94}] : pre \in {<<91>>, <<91, 94>>}, b \in Bodies(SFragments, SLen)}
+
+Alphabet(chars) == TakeMin(chars, AlphaCap - 1) \cup {Neutral}
+CaseOf(tc) ==
+  LET A == Alphabet(tc.chars) IN [text |-> tc.text, alpha |-> SetToSeq(A), maxlen |-> LengthFor(A, LenCap, Budget)]
+Cases == {CaseOf(tc) : tc \in FromTokens \cup FramedQ \cup FramedS}
 
 ASSUME JsonSerialize(IOEnv.VERIF_OUT, SetToSeq(Cases))
-ASSUME PrintT(<<"@@PRINT@@ cases", Cardinality(Cases), Cardinality(TokSeqs)>>)
+ASSUME PrintT(<<"@@PRINT@@ cases", Cardinality(Cases), Cardinality(FromTokens), Cardinality(FramedQ), Cardinality(FramedS)>>)
 VARIABLE dummy
 Init == dummy = 0
 Next == UNCHANGED dummy
